@@ -746,6 +746,35 @@ func (e *Exec) modTarget(env *SpecEnv, it *SExpr) []modTarget {
 		}
 		return []modTarget{t}
 	}
+	// allmem(T) / allmem(T).f: every element (or field f of every element) of every []T backing array
+	{
+		base, fld := it, ""
+		if it.Kind == "field" && len(it.Args) == 1 && it.Args[0].Kind == "call" && it.Args[0].Name == "allmem" {
+			base, fld = it.Args[0], "."+it.Name
+		}
+		if base.Kind == "call" && base.Name == "allmem" && len(base.Args) == 1 && base.Args[0].Kind == "ident" {
+			tn := base.Args[0].Name
+			if env.pkg != nil && !strings.Contains(tn, ".") {
+				tn = env.pkg.Name() + "." + tn
+			}
+			t := e.prog.namedType(tn)
+			if t == nil {
+				env.fail(it, "unknown type "+tn)
+			}
+			var ls []leaf
+			leavesOf(t, "", &ls)
+			mt := modTarget{kind: "mem"}
+			for _, lf := range ls {
+				if fld == "" || lf.Path == fld || strings.HasPrefix(lf.Path, fld+".") {
+					mt.keys = append(mt.keys, leafKey{memFamily(t) + lf.Path, lf.Sort})
+				}
+			}
+			if len(mt.keys) == 0 {
+				env.fail(it, "no such field in "+tn)
+			}
+			return []modTarget{mt}
+		}
+	}
 	// ghost
 	if it.Kind == "ident" {
 		if g, ok := specs.Ghosts[it.Name]; ok {
@@ -942,7 +971,7 @@ func (e *Exec) evalBuiltin(st *State, name string, call *ast.CallExpr) Value {
 			cp = asTerm(e.eval(st, call.Args[2]))
 		}
 		e.safety(st, "alloc", mkAnd(mkLe(tZero, n), mkLe(n, cp), mkLe(cp, e.allocBound(st))), call)
-		id := e.freshRef(st, "make")
+		id := e.freshArray(st, "make", sl.Elem())
 		e.fillZero(st, sl.Elem(), id, tZero, cp)
 		return SliceVal{Arr: id, Off: tZero, Len: n, Cap: cp, Typ: t}
 	case "append":
@@ -1035,7 +1064,7 @@ func (e *Exec) evalAppend(st *State, call *ast.CallExpr) Value {
 	fam := memFamily(et)
 	if call.Ellipsis.IsValid() {
 		srcV := e.eval(st, call.Args[1])
-		id := e.freshRef(st, "app")
+		id := e.freshArray(st, "app", et)
 		var n *Term
 		if s, ok := srcV.(Scalar); ok && s.T.Sort == SStr {
 			n = strLen(s.T)
@@ -1076,7 +1105,7 @@ func (e *Exec) evalAppend(st *State, call *ast.CallExpr) Value {
 	if len(vals) == 0 {
 		return base
 	}
-	id := e.freshRef(st, "app")
+	id := e.freshArray(st, "app", et)
 	nl := mkAdd(base.Len, mkInt64(int64(len(vals))))
 	for _, l := range ls {
 		key := fam + l.Path
